@@ -494,6 +494,14 @@ def do_cp(config):
             else:
                 dest.mkdir()
         else:
+            if same_fs(source, dest) and dest.exists() and (
+                source.samefile(dest) if isinstance(source, Path) else
+                source == dest
+            ):
+                # Opening the destination would truncate the source
+                raise ValueError(lang._(
+                    '{source} and {dest} are the same file'
+                ).format(source=source, dest=dest))
             with source.open('rb') as in_f:
                 with dest.open('wb') as out_f:
                     copy_bytes(in_f, out_f)
